@@ -789,7 +789,9 @@ TRUSTED = ["clang-14 front end (parser/preprocessor of c_rain.c, -ast-dump=json)
            "IEEE-754 evaluation of identical expression trees by the C compiler and CPython/numba"]
 EXPLANATION = ("Static translation validation between the two rainflow implementations: both are lowered (clang JSON AST / Python ast) to one "
                "small IR and compared structurally; each is compared with a transcription of ASTM E1049-85 5.4.4; offsets are in lock-step with "
-               "values; data reaches control flow only through |p-q| < |r-s|; buffer sizes, returned slice and calloc/free pairing.")
+               "values; data reaches control flow only through |p-q| < |r-s|; an abstract interpretation (affine equalities + template inequalities, "
+               "verifier/e8_karr.py) proves every buffer index in range, every emitted row below capacity, rows == L - fullcyclesp1 == the returned "
+               "prefix and 2*sum(counts) == L-1; calloc/free pairing.")
 MANIFEST = {
     "text": "Decided statically for all inputs of length >= 2: the C and Python counting loops are the same transition system with identical expression "
             "trees (IR isomorphism), rainflow1 is rainflow2 with offsets erased, both equal the ASTM E1049-85 three-point stack automaton, every value move "
